@@ -29,6 +29,19 @@ func tupFunction(name string) functions.IFunction {
 	})
 }
 
+// replacedFunction stands in for a function the caller took out of its collection and put back under the same name:
+// the result is the original one wrapped in an array that says so.
+type replacedFunction struct{ old functions.IFunction }
+
+func (r *replacedFunction) Name() string { return r.old.Name() }
+func (r *replacedFunction) Calculate(params []*variants.Variant, ops variants.IVariantOperations) (*variants.Variant, error) {
+	v, err := r.old.Calculate(params, ops)
+	if err != nil {
+		return nil, err
+	}
+	return variants.VariantFromArray([]*variants.Variant{variants.VariantFromString("replaced"), v}), nil
+}
+
 func c01Functions() functions.IFunctionCollection {
 	fc := functions.NewDefaultFunctionCollection()
 	fc.Add(tupFunction("Tup"))
@@ -264,6 +277,82 @@ func checkC01(c c01Case) *evid.Fail {
 			return evid.F("value-mismatch:second-assignment", "%q parsed once: back under the first assignment the calculator returns %s, before %s", text, g1, results[len(results)-1])
 		}
 	}
+	// the same parsed instance is given the other operations manager (no new SetExpression): every node applies the
+	// operation of the manager now in place, also in expressions made of constants only; then the first manager again
+	if wantPanic == nil && lastCalc != nil {
+		otherOps := opsManager(!c.Safe)
+		var wOther, gOther, gBack string
+		p1 := guard(func() { v, e := evalTree(c.Tree, makeVars(c.Vars), funcs, otherOps); wOther = resultRepr(v, e) })
+		p2 := guard(func() {
+			lastCalc.SetVariantOperations(otherOps)
+			v, e := lastCalc.EvaluateUsingVariablesAndFunctions(makeVars(c.Vars), funcs)
+			gOther = resultRepr(v, e)
+			lastCalc.SetVariantOperations(ops)
+			v, e = lastCalc.EvaluateUsingVariablesAndFunctions(makeVars(c.Vars), funcs)
+			gBack = resultRepr(v, e)
+		})
+		text := c.Texts[len(c.Texts)-1]
+		bothErr := func(a, b string) bool { return strings.HasPrefix(a, "error") && strings.HasPrefix(b, "error") }
+		if p1 == nil && p2 == nil {
+			if gOther != wOther && !bothErr(gOther, wOther) {
+				return evid.F("value-mismatch:manager-switched", "%q parsed once, then SetVariantOperations(the other manager): the calculator returns %s, the syntax tree under that manager evaluates to %s", text, gOther, wOther)
+			}
+			if gBack != results[len(results)-1] && !bothErr(gBack, results[len(results)-1]) {
+				return evid.F("value-mismatch:manager-switched", "%q parsed once: back under the first manager the calculator returns %s, before %s", text, gBack, results[len(results)-1])
+			}
+		}
+	}
+	// the caller edits the collections it passes between two evaluations of the parsed instance - the same collection
+	// objects, the same number of entries: every variable and every called function is taken out and put back as a new
+	// object under the same name (the variables with their values rotated, the functions wrapped so that their result
+	// says so). Names are resolved against the collections as they are at the time of the call.
+	if wantPanic == nil && lastCalc != nil && (len(c.Vars) > 1 || hasOp(c.Tree, "call")) {
+		vc, fc := makeVars(c.Vars), c01Functions()
+		var g0, g1, w1 string
+		p1 := guard(func() {
+			v, e := lastCalc.EvaluateUsingVariablesAndFunctions(vc, fc)
+			g0 = resultRepr(v, e)
+			for i := range c.Vars {
+				vc.RemoveByName(c.Vars[i].Name)
+			}
+			for i := range c.Vars {
+				vc.Add(variables.NewVariable(c.Vars[i].Name, c.Vars[(i+1)%len(c.Vars)].V.toVariant()))
+			}
+			var names []string
+			var collect func(n *node)
+			collect = func(n *node) {
+				if n.Op == "call" && !strings.EqualFold(identName(n.Tok), "Sum") {
+					names = append(names, identName(n.Tok))
+				}
+				for _, k := range n.Kids {
+					collect(k)
+				}
+			}
+			collect(c.Tree)
+			for _, name := range names {
+				old := fc.FindByName(name)
+				if old == nil {
+					continue
+				}
+				if _, done := old.(*replacedFunction); done {
+					continue
+				}
+				fc.RemoveByName(name)
+				fc.Add(&replacedFunction{old})
+			}
+			v, e = lastCalc.EvaluateUsingVariablesAndFunctions(vc, fc)
+			g1 = resultRepr(v, e)
+		})
+		p2 := guard(func() { v, e := evalTree(c.Tree, vc, fc, ops); w1 = resultRepr(v, e) })
+		text := c.Texts[len(c.Texts)-1]
+		if p1 != nil && p2 == nil {
+			p1.Msg = fmt.Sprintf("%q after the caller replaced the entries of its collections: %s", text, p1.Msg)
+			return p1
+		}
+		if p1 == nil && p2 == nil && g1 != w1 && !(strings.HasPrefix(g1, "error") && strings.HasPrefix(w1, "error")) {
+			return evid.F("value-mismatch:collections-edited", "%q parsed once, evaluated (%s), then every variable and called function of the SAME collection objects replaced by a new object of the same name: the calculator returns %s, the syntax tree over the collections as they are now evaluates to %s", text, g0, g1, w1)
+		}
+	}
 	// a function collection of the caller's that is empty is not "no collection": every call is a missing function
 	if wantPanic == nil && lastCalc != nil && hasOp(c.Tree, "call") {
 		var v *variants.Variant
@@ -355,6 +444,40 @@ func checkC01(c c01Case) *evid.Fail {
 			}
 		} else if g == nil && (gotErr == nil) != (fErr == nil) {
 			return evid.F("value-mismatch:after-case-variant", "a calculator that first compiled %q and then %q: error=%v, tree evaluation error=%v", c.Texts[0], text, gotErr, fErr)
+		}
+	}
+	// two spellings that differ only inside their string literals, one after the other on one calculator: blanks
+	// inside a literal are content (one blank or two, a blank or a tab, at the start or at the end)
+	if wantPanic == nil {
+		type litPair struct{ first, second func(string) string }
+		pre := func(p string) func(string) string { return func(b string) string { return p + b } }
+		suf := func(p string) func(string) string { return func(b string) string { return b + p } }
+		for k, lp := range []litPair{{pre("x "), pre("x  ")}, {suf(" "), suf("\t")}, {pre(" "), pre("\n")}, {pre("x  y"), pre("x y")}} {
+			tA, chA := mapLiterals(c.Tree, lp.first)
+			tB, _ := mapLiterals(c.Tree, lp.second)
+			if !chA {
+				break
+			}
+			textA, textB := spellPlain(printTokens(tA, parensMinimal, nil)), spellPlain(printTokens(tB, parensMinimal, nil))
+			calc := calculator.NewExpressionCalculator()
+			calc.SetVariantOperations(ops)
+			var gotV, wV *variants.Variant
+			var gotErr, wErr error
+			if g := guard(func() {
+				if gotErr = calc.SetExpression(textA); gotErr == nil {
+					calc.EvaluateUsingVariablesAndFunctions(makeVars(c.Vars), funcs)
+					if gotErr = calc.SetExpression(textB); gotErr == nil {
+						gotV, gotErr = calc.EvaluateUsingVariablesAndFunctions(makeVars(c.Vars), funcs)
+					}
+				}
+				wV, wErr = evalTree(tB, makeVars(c.Vars), funcs, ops)
+			}); g != nil {
+				continue
+			}
+			got, wnt := resultRepr(gotV, gotErr), resultRepr(wV, wErr)
+			if got != wnt && !(gotErr != nil && wErr != nil) {
+				return evid.F("value-mismatch:after-literal-variant", "a calculator that first compiled %q and then %q (literal variation %d) returns %s for the latter, its syntax tree evaluates to %s", textA, textB, k, got, wnt)
+			}
 		}
 	}
 	for i := 1; i < len(results); i++ {
@@ -552,6 +675,24 @@ func TestC01_Exhaustive(t *testing.T) {
 			}
 		}
 	})
+}
+
+// mapLiterals copies the tree with f applied to the body (the text between the quotes, escapes as written) of every
+// string literal.
+func mapLiterals(n *node, f func(body string) string) (*node, bool) {
+	cp := *n
+	changed := false
+	if n.Op == "const" && strings.HasPrefix(n.Tok, "'") && strings.HasSuffix(n.Tok, "'") && len(n.Tok) >= 2 {
+		cp.Tok = "'" + f(n.Tok[1:len(n.Tok)-1]) + "'"
+		changed = true
+	}
+	cp.Kids = nil
+	for _, k := range n.Kids {
+		kc, ch := mapLiterals(k, f)
+		cp.Kids = append(cp.Kids, kc)
+		changed = changed || ch
+	}
+	return &cp, changed
 }
 
 // flipLiteralCase copies the tree with the ASCII letter case of every string literal flipped.
